@@ -129,6 +129,7 @@ func init() {
 			}
 			outs := [][]any{}
 			sinks := [][]any{}
+			dsinks := [][]any{}
 			for i := 0; i < reps; i++ {
 				args := append([]string{}, rq.args...)
 				dictViaFifo := false
@@ -275,8 +276,14 @@ func init() {
 				}
 				out := r.Stdout
 				if sink {
-					// nothing to compare but the outcome: same success as every other run, nothing on stdout
-					sinks = append(sinks, []any{r.Exit == 0, len(r.Stdout), strings.Join(variant, " "), !r.TimedOut})
+					// nothing to compare but the outcome: same success as every other run, nothing on stdout (the --debug runs are
+					// kept apart, like everywhere else: the one open finding is about what --debug puts on stdout)
+					sk := []any{r.Exit == 0, len(r.Stdout), strings.Join(variant, " "), !r.TimedOut}
+					if strings.Contains(strings.Join(variant, " "), "--debug") {
+						dsinks = append(dsinks, sk)
+					} else {
+						sinks = append(sinks, sk)
+					}
 					continue
 				}
 				if ofifo != "" && r.Exit == 0 {
@@ -317,7 +324,7 @@ func init() {
 				}
 			}
 			return []Rec{{"kind": "group", "cls": rq.name, "outs": plain, "sinks": sinks, "full": full},
-				{"kind": "debug", "sub": "debug", "cls": rq.name, "plain": plain[0], "outs": dbg}}
+				{"kind": "debug", "sub": "debug", "cls": rq.name, "plain": plain[0], "outs": dbg, "sinks": dsinks}}
 		},
 	})
 }
